@@ -88,7 +88,8 @@ def run(tier, rep, ev):
             hs = R.sample(hs, 12000)        # thorough: a bounded sample of the larger enumeration (every history executes real sessions)
         ev.cov.setdefault("histories_enumerated", {})[f"calls<={calls},sessions<={sess}"] = len(g.prints.get("BEH", []))
         for i, h in enumerate(hs):
-            opts = {"target": "stream" if i % 2 else "path",
+            # (a caller's stream is used rewound, as the previous session left it, or standing at its end)
+            opts = {"target": ["path", "stream", "path", "stream-asleft", "path", "stream-end"][i % 6],
                     "filters_by_session": {s: R.choice(CHAINS) for s in (1, 2, 3)},
                     "header_modes": {s: R.choice([None, None, "raw"]) for s in (1, 2, 3)}}
             cases.append((h, opts, os.path.join(base, f"g{calls}{sess}_{i}")))
@@ -101,7 +102,7 @@ def run(tier, rep, ev):
             for _ in range(R.randrange(0, 3)):
                 h.append({"op": "call", "k": R.choice(["writestr", "writef", "write", "writedir"]), "n": R.randrange(1, 6), "fault": "none"})
             h.append({"op": "close"})
-        opts = {"target": R.choice(["path", "stream"]), "password": R.choice(["pw", "pä\U0001F511"]),
+        opts = {"target": R.choice(["path", "stream", "stream-asleft", "stream-end"]), "password": R.choice(["pw", "pä\U0001F511"]),
                 "header_modes": {s: R.choice([None, "encrypted"]) for s in (1, 2, 3)}}
         cases.append((h, opts, os.path.join(base, f"p{i}")))
     # ---- R2: foreign bases: reference-writer layouts and fixtures
@@ -142,7 +143,7 @@ def run(tier, rep, ev):
             for _ in range(R.randrange(0, 4)):
                 h.append({"op": "call", "k": R.choice(["writestr", "writef", "write", "writedir"]), "n": R.randrange(1, 6), "fault": "none"})
             h.append({"op": "close"})
-        opts = {"target": R.choice(["path", "stream"]), "password": b[2], "base": layouts.base_from_members(b[1], b[3]),
+        opts = {"target": R.choice(["path", "path", "stream", "stream-asleft", "stream-end"]), "password": b[2], "base": layouts.base_from_members(b[1], b[3]),
                 "filters_by_session": {s: (R.choice(CHAINS) if b[2] is None else None) for s in (2, 3)}}
         cases.append((h, opts, os.path.join(base, f"b{nbase}")))
         ev.sample({"foreign_base": b[0][:200]}, cap=10)
